@@ -3,7 +3,7 @@
 From XcpModel Require Import Base Extents Sparse.
 From XcpProofs Require Import ExtentsProofs SparseProofs.
 From XcpModel Require Import Extracted.
-From XcpProofs Require Import ExtractedOk.
+From XcpProofs Require Import XExtents XLoops.
 
 (* --- merging never drops coverage (all lists of well-formed extents,
        sorted or not, any length) --- *)
@@ -115,3 +115,11 @@ Print Assumptions C19_src_merge_extents.
 Print Assumptions C19_src_fiemap_page_and_eof.
 Print Assumptions C19_src_next_sparse_segments.
 Print Assumptions C19_src_map_extents_loop.
+
+(* ---- further glue on this property's path, pinned token for token (an edit re-opens the obligation; the run then
+   looks for a failing input) ---- *)
+From XcpPins Require Import Pin_linux_lseek.
+From XcpProofs Require Import PinnedSource.
+Theorem C19_src_pin_linux_lseek : pin_unchanged name_linux_lseek.
+Proof. exact pin_linux_lseek. Qed.
+Print Assumptions C19_src_pin_linux_lseek.
